@@ -9,6 +9,7 @@ package main
 import (
 	"fmt"
 	"os"
+	"strings"
 	"time"
 
 	"verifharness/cmd/c18/tf"
@@ -21,7 +22,10 @@ func (p *prop) Rule() string {
 	return "histories on a time field of every valid quantum (noStandardView in 1 of 6): 3-12 sets of 1-2 rows x 1-4 columns with " +
 		"timestamps drawn from a pool spreading over 2-3 years, 2-3 months, 2-3 days and hours {0,1,12,13,23} (so that views share " +
 		"prefixes and sibling views exist), sets without timestamp, 1-3 clears each followed by a scan of every view, a views dump, " +
-		"and (PQL cases) Row over the whole span and over sub-ranges; sets after a clear and a second clear. " +
+		"and (PQL cases) Row over the whole span and over sub-ranges; sets after a clear and a second clear; 1 in 4 writes goes through " +
+		"Field.Import/API.Import (bits with and without timestamps), 1 in 3 clears is preceded by a clear-import (which only reaches the " +
+		"standard view), a refused clear-import with timestamp; after half of the clears the views of another period are created through " +
+		"the peer path (CreateViewMessage -> Server.receiveMessage / createViewIfNotExistsBase), the bit is set there and cleared again. " +
 		"A case is non-trivial when a clear hits a bit that was set with at least one timestamp"
 }
 
@@ -37,6 +41,18 @@ func pool(r *vh.Rng) []time.Time {
 		ts = append(ts, tf.T(years[r.Intn(3)], months[r.Intn(3)], days[r.Intn(3)], hours[r.Intn(5)]))
 	}
 	return ts
+}
+
+func viewName(t time.Time, u byte) string {
+	switch u {
+	case 'Y':
+		return "standard_" + t.Format("2006")
+	case 'M':
+		return "standard_" + t.Format("200601")
+	case 'D':
+		return "standard_" + t.Format("20060102")
+	}
+	return "standard_" + t.Format("2006010215")
 }
 
 func (p *prop) Gen(r *vh.Rng, tier string, n int) []vh.Case {
@@ -82,12 +98,36 @@ func (p *prop) Gen(r *vh.Rng, tier string, n int) []vh.Case {
 		nontrivial := false
 		set := func() {
 			rr, cc := cr.Range(1, rows), cr.Range(1, cols)
+			if cr.Chance(1, 4) {
+				// the same writes through Field.Import / API.Import: 1-3 bits, with and without timestamps
+				var bits []string
+				for n := cr.Range(1, 3); n > 0; n-- {
+					br, bc := cr.Range(1, rows), cr.Range(1, cols)
+					if cr.Chance(1, 4) {
+						bits = append(bits, fmt.Sprintf("%d:%d:-", br, bc))
+					} else {
+						stamped[[2]int{br, bc}] = true
+						bits = append(bits, fmt.Sprintf("%d:%d:%s", br, bc, tf.Show(ts[cr.Intn(len(ts))])))
+					}
+				}
+				lines = append(lines, "import 0 "+strings.Join(bits, ";"))
+				return
+			}
 			if cr.Chance(1, 10) {
 				lines = append(lines, fmt.Sprintf("set %d %d -", rr, cc))
 				return
 			}
 			stamped[[2]int{rr, cc}] = true
 			lines = append(lines, fmt.Sprintf("set %d %d %s", rr, cc, tf.Show(ts[cr.Intn(len(ts))])))
+		}
+		// views of a timestamp for the quantum, created the way a peer's CreateViewMessage does
+		peerViews := func(t time.Time, all bool) {
+			for i := 0; i < len(q); i++ {
+				if !all && cr.Chance(1, 2) {
+					continue
+				}
+				lines = append(lines, "mkview "+viewName(t, q[i]))
+			}
 		}
 		queries := func(rr, cc int) {
 			lines = append(lines, fmt.Sprintf("scan %d %d", rr, cc))
@@ -110,9 +150,41 @@ func (p *prop) Gen(r *vh.Rng, tier string, n int) []vh.Case {
 			if stamped[[2]int{rr, cc}] {
 				nontrivial = true
 			}
+			switch cr.Intn(6) {
+			case 0, 1:
+				// a clear-import (no timestamps: it only reaches the standard view) before the clear
+				bits := fmt.Sprintf("%d:%d:-", rr, cc)
+				if cr.Chance(1, 3) {
+					bits += fmt.Sprintf(";%d:%d:-", cr.Range(1, rows), cr.Range(1, cols))
+				}
+				lines = append(lines, "import 1 "+bits)
+				if cr.Chance(1, 2) {
+					lines = append(lines, fmt.Sprintf("scan %d %d", rr, cc))
+				}
+			case 2:
+				if cr.Chance(1, 3) {
+					// refused: clear with a timestamp (one bit, so one shard)
+					lines = append(lines, fmt.Sprintf("import 1 %d:%d:%s", rr, cc, tf.Show(ts[cr.Intn(len(ts))])))
+				}
+			}
 			lines = append(lines, fmt.Sprintf("clear %d %d", rr, cc))
 			delete(stamped, [2]int{rr, cc})
 			queries(rr, cc)
+			if cr.Chance(1, 2) {
+				// views for another period arrive from a peer, then the bit is set there and cleared again
+				t := ts[cr.Intn(len(ts))]
+				if cr.Chance(1, 2) {
+					t = t.AddDate(cr.Range(0, 1), cr.Range(0, 2), cr.Range(0, 3)).Add(time.Duration(cr.Intn(24)) * time.Hour)
+				}
+				peerViews(t, cr.Chance(3, 4))
+				if cr.Chance(1, 3) {
+					lines = append(lines, "views")
+				}
+				lines = append(lines, fmt.Sprintf("set %d %d %s", rr, cc, tf.Show(t)))
+				nontrivial = true
+				lines = append(lines, fmt.Sprintf("clear %d %d", rr, cc))
+				queries(rr, cc)
+			}
 			if cr.Chance(1, 3) {
 				lines = append(lines, "views")
 			}
